@@ -39,8 +39,8 @@ def eval_family(gens, judges=()):
 
 REGISTRY = {
     "C01": eval_family([props.gen_C01, props.gen_C01_wide, props.gen_C01_names], [shellprops.judge_shell]),
-    "C02": eval_family([props.gen_C02, props.gen_C02_wide, props.gen_C02_bigdomain], [props.judge_pairs, shellprops.judge_shell]),
-    "C03": eval_family([props.gen_C03]),
+    "C02": eval_family([props.gen_C02, props.gen_C02_wide, props.gen_C02_bigdomain, props.gen_C04_domains], [props.judge_pairs, shellprops.judge_shell]),
+    "C03": eval_family([props.gen_C03, props.gen_C03_big], [shellprops.judge_shell]),
     "C04": eval_family([props.gen_C04, props.long_wildcard_batch, props.gen_C04_domains], [props.judge_groups]),
     "C10": eval_family([props.gen_C10, props.gen_bench_subst, props.gen_C10_patterns], [props.judge_pairs, props.judge_groups, shellprops.judge_shell]),
     "C11": eval_family([props.gen_C11, props.gen_C11_big, props.gen_bench_laws, props.gen_library_coincidence, props.gen_C11_wide, props.gen_C11_many], [props.judge_laws, shellprops.judge_shell]),
